@@ -204,7 +204,7 @@ class StmtMixin:
             return
         if isinstance(cont, SV) and cont.ty.name == "Ref" and isinstance(idx, str):
             if cont.t.sexpr() not in getattr(ctx, "fresh_refs", set()):
-                origin = f"{self.describe(cont)}['{idx}']"
+                origin = f"{self.describe(cont)}.{idx}"
                 if not self.engine.modifies_allows(ctx, origin):
                     ctx.oblige("frame", f"assignment to {origin}", z3.BoolVal(False), top=True, info={"frame": origin})
             self.field_write(cont, idx, v)
@@ -641,6 +641,17 @@ class StmtMixin:
             self.exec_block(s.orelse)
             return
         # ---- arbitrary iteration
+        # proof hint: the invariants instantiated at _n + 1 name the recursive-spec-function terms whose
+        # defining equations are needed on early exits (return / break inside the body)
+        ctx.ghost[nname] = SV(INT, n + 1)
+        ctx.ghost["_n"] = SV(INT, n + 1)
+        for inv in invs:
+            try:
+                ctx.hints.append(ctx.zbool(ctx.truth(self.eval_in_spec(inv))))
+            except Unsupported:
+                pass
+        ctx.ghost[nname] = SV(INT, n)
+        ctx.ghost["_n"] = SV(INT, n)
         if while_guard is not None:
             ctx.pc.append(while_guard())
             dec0 = None
